@@ -290,6 +290,30 @@ class _Monitor:
                            (lg.price is not None and o.price is not None and lg.price == o.price),
                            lg.ttl == o.ttl if o.ttl is not None else lg.ttl is None),
                       "C10.order-record-fields")
+        # cancel records carry the values of the cancelled order at the moment of the cancel
+        for aid, c in self._decided(Cancel):
+            if c.placed_at is None:
+                continue
+            o = c.order
+            lgs = [x for x in proc if isinstance(x, CancelLog) and x.market_id == o.market_id
+                   and bool(x.order_id == o.order_id) and bool(x.cancel_time == c.placed_at)]
+            g.require(len(lgs) >= 1, "C10.cancel-records", f"no record for the cancel of order {o.order_id} at t={c.placed_at}")
+            x = lgs[0]
+            g.require(sand(x.agent_id == o.agent_id, x.is_buy == o.is_buy, x.kind == o.kind, x.order_time == o.placed_at,
+                           (x.price is None and o.price is None) or
+                           (x.price is not None and o.price is not None and x.price == o.price),
+                           x.volume == o.volume,
+                           (x.ttl is None and o.ttl is None) or (x.ttl is not None and o.ttl is not None and x.ttl == o.ttl)),
+                      "C10.cancel-record-fields", f"cancel record of order {o.order_id} differs from the order's values")
+        # fill records: parties, orders, positive volume
+        for x in proc:
+            if isinstance(x, ExecutionLog):
+                bo = [o for aid, o in self._accepted_orders() if o.market_id == x.market_id and bool(o.order_id == x.buy_order_id)]
+                so = [o for aid, o in self._accepted_orders() if o.market_id == x.market_id and bool(o.order_id == x.sell_order_id)]
+                g.require(len(bo) == 1 and len(so) == 1 and bo[0].is_buy and not so[0].is_buy, "C10.fill-record-fields",
+                          "fill record does not name one accepted buy and one accepted sell order of its market")
+                g.require(sand(x.buy_agent_id == bo[0].agent_id, x.sell_agent_id == so[0].agent_id, x.volume > 0,
+                               x.time >= bo[0].placed_at, x.time >= so[0].placed_at), "C10.fill-record-fields")
         # expiries: one record per order that left the book by ttl
         n_exp = sum(1 for x in proc if isinstance(x, ExpirationLog))
         end_t = ctx.sim.markets[0].get_time()
